@@ -12,6 +12,9 @@ import (
 	"golang.org/x/tools/go/ssa"
 )
 
+// recTables holds the rows of tables of records (indexed by Val.R of the row's placeholder value).
+var recTables []map[string]Val
+
 func readOnlyGlobal(p *Prog, g *ssa.Global) bool {
 	pkg := g.Pkg
 	if pkg == nil {
@@ -110,6 +113,28 @@ func constTableOf(p *Prog, g *ssa.Global) []Val {
 	}
 	var out []Val
 	for _, el := range lit.Elems {
+		if el.Const == nil && el.Fields != nil {
+			// a row of a table of records: numeric fields by name
+			rec := map[string]Val{}
+			for fname, fl := range el.Fields {
+				if fl.Const == nil {
+					return nil
+				}
+				switch fl.Const.Kind() {
+				case constant.Int:
+					v, _ := constant.Int64Val(fl.Const)
+					rec["."+fname] = Val{K: TInt, I: v, F: float64(v)}
+				case constant.Float:
+					f, _ := constant.Float64Val(fl.Const)
+					rec["."+fname] = Val{K: TFloat, F: f}
+				default:
+					return nil
+				}
+			}
+			out = append(out, Val{K: TTuple, S: "rec", T: nil, R: uint64(len(recTables))})
+			recTables = append(recTables, rec)
+			continue
+		}
 		if el.Const == nil {
 			return nil
 		}
@@ -150,4 +175,84 @@ func collectConstTables(p *Prog, sum *Summary, into map[*Symbol][]Val) {
 		return t
 	}
 	sum.Top.MapTerms(visit)
+}
+
+// collectConstTablesInto replaces loads with a constant index from read-only literal tables of numbers (package level)
+// by the element, throughout a summary. Loads with a symbolic index are left alone.
+func collectConstTablesInto(p *Prog, S *Store, sum *Summary) {
+	tabs := map[*Symbol][]Val{}
+	collectConstTables(p, sum, tabs)
+	memo := map[*Term]*Term{}
+	var rw func(t *Term) *Term
+	rw = func(t *Term) *Term {
+		if t == nil || t.K != KOp {
+			return t
+		}
+		if r, ok := memo[t]; ok {
+			return r
+		}
+		na := make([]*Term, len(t.Args))
+		ch := false
+		for i, a := range t.Args {
+			na[i] = rw(a)
+			if na[i] != a {
+				ch = true
+			}
+		}
+		r := t
+		if ch {
+			if t.Op == "lin" {
+				acc := S.linMake(nil, nil, t.Off)
+				for i, a := range na {
+					acc = S.Add(acc, S.MulC(a, t.Coefs[i]))
+				}
+				r = acc
+			} else {
+				r = S.rebuild(t, na)
+			}
+		}
+		if r.Op == "ld" && len(r.Args) >= 2 && r.Args[0].K == KSym && tabs[r.Args[0].Sym] != nil && r.Args[1].Op == "ite" {
+			// a selected row: select among the rows' elements
+			ix := r.Args[1]
+			mk := func(i *Term) *Term {
+				na := append([]*Term{}, r.Args...)
+				na[1] = i
+				return rw(S.mkOp("ld", r.Ty, na...))
+			}
+			r = S.Op("ite", r.Ty, ix.Args[0], mk(ix.Args[1]), mk(ix.Args[2]))
+		}
+		if r.Op == "ld" && len(r.Args) >= 2 && r.Args[0].K == KSym {
+			if tab := tabs[r.Args[0].Sym]; tab != nil {
+				if i, ok := r.Args[1].IntVal(); ok && i >= 0 && i < int64(len(tab)) {
+					el := tab[i]
+					if len(r.Args) == 3 && el.K == TTuple && el.S == "rec" {
+						if f, isStr := r.Args[2].StrVal(); isStr {
+							if v, has := recTables[el.R][f]; has {
+								el = v
+							}
+						}
+					}
+					if len(r.Args) == 2 || el.K != TTuple {
+						switch el.K {
+						case TInt:
+							r = S.Int(el.I)
+						case TFloat:
+							r = S.Float(el.F)
+						}
+					}
+				}
+			}
+		}
+		memo[t] = r
+		return r
+	}
+	sum.Top.MapTerms(rw)
+	for _, rt := range sum.Rets {
+		for i := range rt.Rets {
+			rt.Rets[i] = rw(rt.Rets[i])
+		}
+		if rt.Guard != nil {
+			rt.Guard = rw(rt.Guard)
+		}
+	}
 }
